@@ -221,6 +221,39 @@ def run(ck: Checker):
 
     with ck.as_rule('C14-8', 'exception transport: the RemoteException obligations C15-1..5, on which "carries the server-side traceback" rests', minimum=5):
         c15.run(ck)
+    # ------------------------------------------------------------------ C14-14
+    ck.rule('C14-14', 'the exception of the hosted method is what the caller gets: after the handler has built the #ERROR message nothing else is decided for this call — no later step reads the (unassigned) result or replaces the message (a mapped method that raises would surface as a library UnboundLocalError) (EXITS)', minimum=1)
+    cmf = ck.repo.func(SERVERPROC, 'Server._callmethod')
+
+    def _extra14(node, a):
+        return {'Exception'} if any(is_name(c.func, 'function') for c in calls_in(a)) else set()
+
+    cfg14 = build_cfg(cmf, ck.repo, make_fallible(Scope(cmf), iters=set(), calls=set(), extra=_extra14))
+    calls14 = [n for n in cfg14.nodes if isinstance(n.ast, ast.Assign) and isinstance(n.ast.value, ast.Call) and is_name(n.ast.value.func, 'function')]
+    ck.need(calls14, f'{cmf.key}: call of the hosted method not found')
+    resv = calls14[0].ast.targets[0].id if isinstance(calls14[0].ast.targets[0], ast.Name) else None
+    probs14 = []
+    for e in cfg14.succ[calls14[0].id]:
+        if e.kind != 'exc':
+            continue
+        h = cfg14.nodes[e.dst]
+        if h.kind != 'except':
+            continue
+        after = reachable(cfg14, [h.id], edge_ok=lambda ed: not ed.is_exc)
+        msgdefs = [k for k in after if isinstance(cfg14.nodes[k].ast, ast.Assign) and any(is_name(t, 'msg') for t in cfg14.nodes[k].ast.targets)]
+        first = [k for k in msgdefs if '#ERROR' in norm_text(cfg14.nodes[k].ast)]
+        for k in after:
+            nk = cfg14.nodes[k]
+            a = header_expr(nk)
+            if a is None or k == h.id:
+                continue
+            if resv and any(isinstance(x, ast.Name) and x.id == resv and isinstance(x.ctx, ast.Load) for x in ast.walk(a)):
+                probs14.append(f'L{nk.lineno}: `{norm_text(a)[:50]}` reads `{resv}` on the path on which the hosted method raised (it was never assigned): the caller gets the library\'s UnboundLocalError as a RemoteError instead of the method\'s own exception')
+            if k in msgdefs and k not in first:
+                probs14.append(f'L{nk.lineno}: the #ERROR message is replaced by `{norm_text(nk.ast)[:40]}` after the hosted method raised')
+        if not first:
+            probs14.append('the handler of the hosted call does not build an #ERROR message')
+    ck.ob('C14-14', cmf, calls14[0].ast, not probs14, '; '.join(sorted(set(probs14))) if probs14 else 'after the hosted method raised, the #ERROR message is returned as built; the result variable is read on the success path only')
     # ------------------------------------------------------------------ C14-13
     ck.rule('C14-13', 'the exception carries the traceback of *this* server\'s frames: Server._wrap_user_exc wraps with RemoteException(<the exception>) alone, so that the text is formatted from the live traceback of the hosted method — a forwarded text (of a nested remote call that failed) would drop the frames of the method the caller invoked (AGREE)', minimum=1)
     wf = ck.repo.func(SERVERPROC, 'Server._wrap_user_exc')
